@@ -63,9 +63,9 @@ CLAIMED = {
     technique='Coq proof (heap invariant by induction over operations) + mutation/identity probes on the implementation',
     design='6 C14'),
  'C05': dict(
-    text='Theorems: if the path resolver gives back type and fields of the formatted path (unambiguous templates: explicit hypothesis), Sid(path=sid.path(c), config=c) is the Sid; one path never yields two Sids; untyped Sids and types without path template have path None; pathlib normalisation is idempotent; the "." / "" value collision (D26) is proved as an example. Differential run + oracle over every concrete Sid of every type in every path configuration (round trip, function, injectivity over the generated set, root-only difference, positional / keyword).',
-    note=TB + 'PARTIAL: unambiguity of the configured path templates (W9 of DESIGN.md) is a hypothesis of the round-trip theorem; it is exercised on the implementation for every generated Sid, not proved. Both load orders are compared by the configuration translator on every run.',
-    technique='Coq proof (conditional round trip, injectivity, normal forms) + correspondence + oracle',
+    text='Theorems: for every configuration passing the decidable unambiguity check paths_unambiguousb (each path template factors a string in one way only, earlier templates are separated from the concrete strings of later ones, mappings injective, key orders coherent) and every naturally typed concrete Sid whose values are not "" / "." and contain no "/" or newline, Sid(path=sid.path(c), config=c) is the Sid, the path resolver gives back its type and fields, the reverse check of dict_to_path succeeds, and two such Sids never share a path; the configuration of the run is proved to pass the check (by computation, on every run). Also: the conditional round trip with the resolver answer as explicit hypothesis; one path never yields two Sids; untyped Sids and types without path template have path None; pathlib normalisation is idempotent; the "." / "" value collision (D26) is proved as an example. Differential run + oracle over every concrete Sid of every type in every path configuration (round trip, function, injectivity over the generated set, root-only difference, positional / keyword).',
+    note=TB + 'The unambiguity check is sufficient, not complete (it rejects templates whose literal text has regex-special characters other than ".", relative templates, and placeholder patterns with a star other than the default). "path(c) differs between configurations only by the root" is checked by oracle + correspondence. Both load orders are compared by the configuration translator on every run.',
+    technique='Coq proof (unambiguous factorisation of path templates by shape scanning -> full round trip, injectivity, normal forms) + correspondence + oracle',
     design='6 C05'),
  'C06': dict(
     text='Theorems: whenever Sid(path=p, config=c) is typed its path(c) is p (normalised); otherwise it is the empty Sid; for every path string and configured configuration the call returns a Sid or ResolvaException, and the exception can only arise in the reverse check of the re-formatted path (excluded under an explicit unambiguity hypothesis). Differential run + oracle over systematically mutated paths (desynchronised duplicates, every literal character, dropped / duplicated components, trailing parts, swapped roots, newline).',
